@@ -1363,6 +1363,11 @@ class BaseGaussianState(BaseState):
                 check_purity=False,
             )
             rho = np.outer(psi, psi.conj())
+            # np.outer flattens the state vector: restore one (row, column) pair of axes per mode,
+            # the layout of the mixed-state branch
+            num = len(modes)
+            rho = rho.reshape([cutoff] * (2 * num))
+            rho = rho.transpose([k // 2 + num * (k % 2) for k in range(2 * num)])
             return rho
 
         return twq.density_matrix(mu, cov, hbar=self._hbar, normalize=True, cutoff=cutoff)
